@@ -2,7 +2,8 @@
 //!
 //! Stage 1: a simulated venue per instrument (atomic change log, depth windows [U,u] (+pu for
 //! futures), REST snapshot at id S) is delivered — clean or perturbed (drop / duplicate / swap /
-//! replay / start early / start late / interleaved instruments) — as REAL JSON text through
+//! replay / start early / start late / interleaved instruments / a re-aggregated message that
+//! overlaps several venue windows) — as REAL JSON text through
 //! `serde_json::from_str` into the REAL transformers built with `ExchangeTransformer::init` and a
 //! `Map` produced by the library's own `WebSocketSubMapper`. The local book is maintained with the
 //! real `OrderBook::update` from the transformer's `Ok` outputs only. After every message:
@@ -82,6 +83,8 @@ const UNKNOWN_MARKET: &str = "XRPUSDT";
 /// quantity table; index 0 = delete
 const QTY: [&str; 6] = ["0.00000000", "1.00000000", "2.50000000", "0.00100000", "13.37000000", "7"];
 const GRID: u8 = 3;
+/// window indices >= ALT address `Venue::alt_windows`
+const ALT: usize = 1000;
 
 // ------------------------------------------------------------------------------------------------
 // History (self-contained, replayable)
@@ -125,6 +128,10 @@ struct Venue {
     market: usize,
     changes: Vec<Change>,
     windows: Vec<Win>,
+    /// re-aggregated messages the venue may also serve: each covers the id range of >= 2
+    /// consecutive windows (final quantities over that range); addressed as window index ALT + k
+    #[serde(default)]
+    alt_windows: Vec<Win>,
 }
 
 #[derive(Debug, Clone, Copy, PartialEq, Eq, Serialize, Deserialize)]
@@ -176,6 +183,15 @@ fn qty_dec(q: u8) -> Decimal {
 }
 
 impl Venue {
+    fn win(&self, w: usize) -> Win {
+        if w >= ALT { self.alt_windows[w - ALT] } else { self.windows[w] }
+    }
+
+    fn merged(&self, a: usize, b: usize) -> Win {
+        let (wa, wb) = (self.windows[a], self.windows[b]);
+        Win { first: wa.first, last: wb.last, pu: wa.pu, lo: wa.lo, hi: wb.hi }
+    }
+
     /// venue book as of id `x`: every change with id <= x applied to the empty book
     fn state_at(&self, x: u64) -> BTreeMap<(bool, u8), u8> {
         let mut m = BTreeMap::new();
@@ -215,8 +231,8 @@ impl Venue {
 
     fn strictly_older(&self, rule: Rule, s: u64, w: usize) -> bool {
         match rule {
-            Rule::Spot => self.windows[w].last <= s,
-            Rule::Futures => self.windows[w].last < s,
+            Rule::Spot => self.win(w).last <= s,
+            Rule::Futures => self.win(w).last < s,
         }
     }
 }
@@ -260,7 +276,7 @@ fn render_update(rule: Rule, market: &str, v: &Venue, w: &Win) -> String {
 
 fn render_unknown(rule: Rule, n: u64) -> String {
     let w = Win { first: n + 1, last: n + 2, pu: n, lo: 0, hi: 0 };
-    let v = Venue { market: 0, changes: vec![], windows: vec![] };
+    let v = Venue { market: 0, changes: vec![], windows: vec![], alt_windows: vec![] };
     render_update(rule, UNKNOWN_MARKET, &v, &w)
 }
 
@@ -285,7 +301,7 @@ fn render_delivery(h: &History, conn: &Conn) -> Vec<String> {
                 render_unknown(h.rule, n as u64)
             } else {
                 let v = &h.venues[d.i as usize];
-                render_update(h.rule, MARKETS[v.market].2, v, &v.windows[d.w as usize])
+                render_update(h.rule, MARKETS[v.market].2, v, &v.win(d.w as usize))
             }
         })
         .collect()
@@ -482,7 +498,7 @@ fn run_conn<R: RuleSet>(h: &History, conn: &Conn, only: Option<u8>, judge: bool,
                         });
                     }
                     let v = &h.venues[j];
-                    let w = v.windows[d.w as usize];
+                    let w = v.win(d.w as usize);
                     let s = conn.snapshot_ids[j];
                     let mon = &mut mons[j];
                     mon.local.update(ev.kind.clone());
@@ -510,7 +526,7 @@ fn run_conn<R: RuleSet>(h: &History, conn: &Conn, only: Option<u8>, judge: bool,
                                 stats.cells.insert(if inside { "first_accept_snapshot_inside_window" } else { "first_accept_snapshot_on_boundary" });
                             }
                             Some(&pw) => {
-                                let prev = v.windows[pw];
+                                let prev = v.win(pw);
                                 let ok = match rule {
                                     Rule::Spot => w.first == prev.last + 1,
                                     Rule::Futures => w.pu == prev.last,
@@ -552,7 +568,7 @@ fn run_conn<R: RuleSet>(h: &History, conn: &Conn, only: Option<u8>, judge: bool,
                     }
                     let j = d.i as usize;
                     let v = &h.venues[j];
-                    let w = v.windows[d.w as usize];
+                    let w = v.win(d.w as usize);
                     let s = conn.snapshot_ids[j];
                     let is_seq = matches!(e, DataError::InvalidSequence { .. });
                     outcome = if is_seq { Outcome::ErrSeq } else { Outcome::ErrOther };
@@ -569,7 +585,7 @@ fn run_conn<R: RuleSet>(h: &History, conn: &Conn, only: Option<u8>, judge: bool,
                         let mon = &mons[j];
                         let mut seq = mon.seen.clone();
                         seq.push(d.w as usize);
-                        let consecutive = seq.windows(2).all(|p| p[1] == p[0] + 1);
+                        let consecutive = seq.iter().all(|x| *x < ALT) && seq.windows(2).all(|p| p[1] == p[0] + 1);
                         let f = v.first_valid(rule, s);
                         let all_older = seq.iter().all(|x| v.strictly_older(rule, s, *x));
                         let clean = consecutive && (all_older || f.is_some_and(|f| seq[0] <= f));
@@ -583,7 +599,7 @@ fn run_conn<R: RuleSet>(h: &History, conn: &Conn, only: Option<u8>, judge: bool,
                             });
                         }
                         // classification (coverage / unjudged counters)
-                        let head = mon.admitted.last().map(|pw| v.windows[*pw].last).unwrap_or(s);
+                        let head = mon.admitted.last().map(|pw| v.win(*pw).last).unwrap_or(s);
                         if mon.admitted.is_empty() {
                             stats.cells.insert("first_update_rejected");
                         } else {
@@ -610,12 +626,12 @@ fn run_conn<R: RuleSet>(h: &History, conn: &Conn, only: Option<u8>, judge: bool,
         if !unknown {
             let j = d.i as usize;
             let v = &h.venues[j];
-            let w = v.windows[d.w as usize];
+            let w = v.win(d.w as usize);
             let mon = &mut mons[j];
             if outcome == Outcome::Dropped && judge {
                 // (vi) silently dropped => must not be strictly fresh
                 stats.checks += 1;
-                let head = mon.admitted.last().map(|pw| v.windows[*pw].last).unwrap_or(conn.snapshot_ids[j]);
+                let head = mon.admitted.last().map(|pw| v.win(*pw).last).unwrap_or(conn.snapshot_ids[j]);
                 if w.last > head {
                     return Err(Viol {
                         sig: format!("fresh_update_silently_dropped{suffix}"),
@@ -643,7 +659,7 @@ fn run_conn<R: RuleSet>(h: &History, conn: &Conn, only: Option<u8>, judge: bool,
         for (j, mon) in mons.iter().enumerate() {
             let v = &h.venues[j];
             if let (Some(&lastw), false) = (mon.seen.last(), mon.errored) {
-                if v.windows[lastw].last > mon.local.sequence && mon.seen.windows(2).all(|p| p[1] == p[0] + 1) {
+                if v.win(lastw).last > mon.local.sequence && lastw < ALT && mon.seen.windows(2).all(|p| p[1] == p[0] + 1) {
                     stats.info("in_order_delivery_ended_behind_last_window");
                 }
             }
@@ -658,11 +674,16 @@ fn structural_cells(h: &History, conn: &Conn, stats: &mut Stats) {
     let mut active = 0;
     for (j, v) in h.venues.iter().enumerate() {
         let s = conn.snapshot_ids[j];
-        let seq: Vec<usize> = conn.delivery.iter().filter(|d| d.i as usize == j).map(|d| d.w as usize).collect();
-        if seq.is_empty() {
+        let all: Vec<usize> = conn.delivery.iter().filter(|d| d.i as usize == j).map(|d| d.w as usize).collect();
+        if all.is_empty() {
             continue;
         }
         active += 1;
+        if all.iter().any(|x| *x >= ALT) {
+            stats.cells.insert("overlapping_reaggregated_window_delivered");
+            continue;
+        }
+        let seq = all;
         let f = v.first_valid(rule, s);
         if v.windows.iter().any(|w| w.first <= s && s < w.last) {
             stats.cells.insert("snapshot_inside_window");
@@ -838,7 +859,7 @@ fn judge_stage2<R: RuleSet>(h: &History, stats: &mut Stats) -> Option<Viol> {
         let mut first_done = vec![false; h.venues.len()];
         for d in &c.delivery {
             let j = d.i as usize;
-            let w = &h.venues[j].windows[d.w as usize];
+            let w = &h.venues[j].win(d.w as usize);
             match spec_step(rule, head[j], first_done[j], w) {
                 None => {
                     stats.info("stage2_outcome_open_case_skipped");
@@ -995,9 +1016,9 @@ fn judge_history(h: &History, stats: &mut Stats) -> Option<Viol> {
     let ok_shape = !h.conns.is_empty()
         && h.conns.iter().all(|c| {
             c.snapshot_ids.len() == h.venues.len()
-                && c.delivery.iter().all(|d| d.i == UNKNOWN || ((d.i as usize) < h.venues.len() && (d.w as usize) < h.venues[d.i as usize].windows.len()))
+                && c.delivery.iter().all(|d| d.i == UNKNOWN || ((d.i as usize) < h.venues.len() && ((d.w as usize) < h.venues[d.i as usize].windows.len() || ((d.w as usize) >= ALT && (d.w as usize) - ALT < h.venues[d.i as usize].alt_windows.len()))))
         })
-        && h.venues.iter().all(|v| v.market < MARKETS.len() && v.windows.iter().all(|w| w.lo <= w.hi && w.hi <= v.changes.len()));
+        && h.venues.iter().all(|v| v.market < MARKETS.len() && v.windows.iter().chain(v.alt_windows.iter()).all(|w| w.lo <= w.hi && w.hi <= v.changes.len()));
     if !ok_shape {
         return Some(Viol { sig: "HARNESS".into(), detail: "malformed history".into() });
     }
@@ -1100,7 +1121,14 @@ fn gen_venue(rng: &mut Rng, rule: Rule, market: usize, n_win: usize) -> Venue {
         pu = last;
         next_first = last + 1 + if rule == Rule::Futures && rng.chance(1, 2) { rng.range(1, 3) as u64 } else { 0 };
     }
-    Venue { market, changes, windows }
+    let mut v = Venue { market, changes, windows, alt_windows: vec![] };
+    for _ in 0..2 {
+        let a = rng.usize_below(n_win - 1);
+        let b = rng.range_u(a + 1, (a + 2).min(n_win - 1));
+        let m = v.merged(a, b);
+        v.alt_windows.push(m);
+    }
+    v
 }
 
 fn gen_snapshot_id(rng: &mut Rng, v: &Venue) -> u64 {
@@ -1135,7 +1163,12 @@ fn gen_delivery(rng: &mut Rng, rule: Rule, v: &Venue, s: u64) -> Vec<usize> {
             break;
         }
         let k = rng.usize_below(seq.len());
-        match rng.below(5) {
+        match rng.below(6) {
+            5 => {
+                // a re-aggregated message overlapping venue windows
+                let at = rng.usize_below(seq.len() + 1);
+                seq.insert(at, ALT + rng.usize_below(v.alt_windows.len()));
+            }
             0 => {
                 seq.remove(k);
             }
@@ -1285,15 +1318,18 @@ fn exhaustive_venue(rule: Rule, n_win: usize) -> Venue {
         windows.push(Win { first, last, pu, lo, hi: changes.len() });
         pu = last;
     }
-    Venue { market: 0, changes, windows }
+    let mut v = Venue { market: 0, changes, windows, alt_windows: vec![] };
+    v.alt_windows = vec![v.merged(1, 2), v.merged(2, 3)];
+    v
 }
 
 fn exhaustive_block(rule: Rule, n_win: usize, max_len: usize, worker: usize, n_workers: usize, report: &mut Report) {
     let venue = exhaustive_venue(rule, n_win);
     let max_s = venue.max_id() + 1;
+    let n_sym = n_win + venue.alt_windows.len();
     let mut idx = 0u64;
     for len in 1..=max_len {
-        let total = (n_win as u64).pow(len as u32);
+        let total = (n_sym as u64).pow(len as u32);
         for word in 0..total {
             idx += 1;
             if idx % n_workers as u64 != worker as u64 {
@@ -1302,8 +1338,9 @@ fn exhaustive_block(rule: Rule, n_win: usize, max_len: usize, worker: usize, n_w
             let mut x = word;
             let mut delivery = Vec::with_capacity(len);
             for _ in 0..len {
-                delivery.push(Deliv { i: 0, w: (x % n_win as u64) as u16 });
-                x /= n_win as u64;
+                let sym = (x % n_sym as u64) as usize;
+                delivery.push(Deliv { i: 0, w: if sym < n_win { sym } else { ALT + sym - n_win } as u16 });
+                x /= n_sym as u64;
             }
             for s in 0..=max_s {
                 let h = History { rule, stage: 1, venues: vec![venue.clone()], conns: vec![Conn { snapshot_ids: vec![s], delivery: delivery.clone() }] };
@@ -1313,7 +1350,7 @@ fn exhaustive_block(rule: Rule, n_win: usize, max_len: usize, worker: usize, n_w
     }
 }
 
-const REQUIRED: [&str; 22] = [
+const REQUIRED: [&str; 23] = [
     "first_accept_snapshot_inside_window",
     "first_accept_snapshot_on_boundary",
     "first_update_rejected",
@@ -1335,6 +1372,7 @@ const REQUIRED: [&str; 22] = [
     "isolation_compared",
     "clean_delivery",
     "clean_delivery_with_older_prefix",
+    "overlapping_reaggregated_window_delivered",
     "stage2_break_ends_connection_one_notice",
 ];
 
@@ -1373,7 +1411,7 @@ fn main() {
 
     if !small {
         report.exhaustive_blocks.push(format!(
-            "per rule set: one instrument, fixed {ex_win}-window venue, every snapshot id 0..=max+1 x every delivery word of length 1..={ex_len} over the window indices (all drops, duplicates, swaps, replays, early/late starts of that size)"
+            "per rule set: one instrument, fixed {ex_win}-window venue (+2 re-aggregated overlapping messages), every snapshot id 0..=max+1 x every delivery word of length 1..={ex_len} over those {} messages (all drops, duplicates, swaps, replays, early/late starts of that size)", ex_win + 2
         ));
         for rule in ["spot", "futures"] {
             for c in REQUIRED {
